@@ -176,7 +176,7 @@ pub fn gen_valid_def(g: &mut Gen, name: &str, mel: bool, prior: &[String]) -> De
 		};
 		let all_skipped = special == 3;
 		let unit_only = nvars > 8 || g.chance(64);
-		let use_discr = g.chance(64);
+		let use_discr = g.chance(110);
 		let mut variants: Vec<VarDef> = vec![];
 		for i in 0..nvars {
 			let fields = if unit_only { vec![] } else { gen_fields(g, mel, &generics, prior) };
@@ -262,7 +262,7 @@ fn assign_valid_indices(g: &mut Gen, def: &mut Def, use_discr: bool) {
 				tries += 1;
 			}
 			v.index_attr = Some(k);
-		} else if discr_ok && choice == 1 {
+		} else if discr_ok && (choice == 1 || choice == 2) {
 			let mut k = *g.pick(&[0u32, 1, 5, 9, 77, 200, 255]);
 			let mut tries = 0;
 			while (used_codec.contains(&k) || used_rust.contains(&i64::from(k))) && tries < 300 {
@@ -272,7 +272,7 @@ fn assign_valid_indices(g: &mut Gen, def: &mut Def, use_discr: bool) {
 			v.discriminant = Some(k);
 			rust = i64::from(k);
 			// an index attribute next to an explicit discriminant: the attribute wins
-			if !v.skip && g.chance(96) {
+			if !v.skip && g.chance(128) {
 				let mut a = *g.pick(&[0u32, 2, 6, 42, 254]);
 				let mut tries = 0;
 				while (used_codec.contains(&a) || a == k) && tries < 300 {
